@@ -5,7 +5,8 @@ CHECKS = [
         id="C01",
         text="Every token string up to 4 (thorough 5) tokens over a 16-20 symbol alphabet, every grammar sentence up to 3 (4) binary "
              "operators in minimal and full parenthesisation, every sign run <= 3 (4) in every operand position, every documented "
-             "identity over all operand pairs and every equivalent specification form is parsed by the real parser under every "
+             "identity over all operand pairs, every equivalent specification form, every grouped / multi-part left-hand side shape and every "
+             "ordered pair of feature-flag subsets applied in turn to ONE parser object is parsed by the real parser under every "
              "parser configuration and compared with an independent reference term algebra (three-valued: accept / reject / unspecified) "
              "and with reference-free metamorphic laws.  Exhaustive within the bounds, so any precedence, associativity, set-semantics, "
              "intercept or sign-handling fault that shows up in a small formula is found.",
@@ -23,7 +24,9 @@ CHECKS += [
              "levels, a Python-expression factor, literal scalings) x intercept x construction (string / term list) x rank reduction "
              "on/off x pandas/numpy/sparse output x four frames (1 row, repeated values, full cross, a declared level absent) is "
              "materialized by the real code; every column is recomputed from its label with numpy and, with rank reduction off, the whole "
-             "label list is predicted as the row-wise Kronecker product with the first factor fastest.",
+             "label list is predicted as the row-wise Kronecker product with the first factor fastest.  Also: contrast-coded factors, a level "
+             "order nominated by the caller, frames with non-default index labels, the narwhals materializer, and every build regenerated "
+             "from its attached spec (those columns must obey the labels too).",
         design_ref="DESIGN.md section 3 C02",
         note="Trusted: models/design.py (label -> product recomputation). Numeric values are distinct primes / non-integers in general "
              "position; arbitrary values are covered by the argument that columns are products of the same degree.",
@@ -35,7 +38,9 @@ CHECKS += [
              "lattice terms including the intercept, with and without numerical-factor clustering; the emitted scoped terms are expanded "
              "into exact atoms (W_S x numeric factors) and must cover the unreduced design's atoms exactly once. (ii) Real matrices on "
              "fully crossed data for every ordered list of <= 3 (4) terms x built-in contrasts: SVD rank with a gap requirement; the atom "
-             "verdict from model_spec.structure, the stub run and the numeric verdict must coincide.",
+             "verdict from model_spec.structure, the stub run and the numeric verdict must coincide.  The numeric engine also runs with every "
+             "written factor order, clustered terms, a one-level factor, a numeric factor spanning the intercept, falsy level names, and "
+             "pandas output on a frame whose index labels are a permutation of the positions.",
         design_ref="DESIGN.md section 3 C03",
         note="Trusted: the atom algebra (models/atoms.py; standard ANOVA decomposition on fully crossed data in general position); level "
              "counts > 3 are not run end to end (the algebra is level-count independent; C11 covers codings for n <= 12).",
@@ -48,7 +53,9 @@ CHECKS += [
         text="Frames of 3 (thorough 4) rows with a numeric column, a text column and a response: every null pattern over the data columns x "
              "four index kinds (default, strings, non-unique, unsorted ints that collide with positions) x nine formulas (plain, interaction, "
              "C(), Python factor, two-sided, multi-part, hashed()) x caller drop sets x five entry points x three outputs x three policies, "
-             "organised so that every pair of dimensions is fully crossed in some sub-check, plus fitted-spec reuse.  A reference null model "
+             "organised so that every pair of dimensions is fully crossed in some sub-check, plus fitted-spec reuse, every null-carrying dtype, "
+             "the narwhals materializer, 2-D factors, column-less parts and a context factor held in every container type the null handling "
+             "dispatches on (list, array, series, dict with integer / string keys, 2-D array) x every null pattern.  A reference null model "
              "predicts the kept rows; output rows, pandas index (by position) and the caller's drop set afterwards are compared exactly.",
         design_ref="DESIGN.md section 3 C06",
         note="Trusted: the kept-row model for element-wise factors; expected cell values come from the same library on the clean sub-frame "
@@ -59,8 +66,8 @@ CHECKS += [
 CHECKS += [
     dict(
         id="C07",
-        text="Thirteen structured formulas (two-sided, multi-part on either side, lhs=/rhs= keywords, tuples, nested keyword structure, root "
-             "plus key) with factors shared between parts x every null pattern with <= 2 (thorough 3) nulls over the 16 data cells x entry "
+        text="Twenty-nine structured formulas (two-sided, multi-part on either side, lhs=/rhs= keywords, tuples, nested keyword structure, root "
+             "plus key, root-only structures, column-less parts, nested tuples, context-dependent factors) with factors shared between parts x every null pattern with <= 2 (thorough 3) nulls over the 16 data cells x entry "
              "points x outputs x index kinds.  The result and its spec must have the formula's nested shape, all parts the same rows and "
              "index, every part must equal that part's terms built alone with the jointly dropped rows (reference null model) as drop set, "
              "and every leaf spec must regenerate its part.",
@@ -73,10 +80,13 @@ CHECKS += [
 CHECKS += [
     dict(
         id="C05",
-        text="For each of 29 formulas (plain, interactions in both factor orders, scalings, Python factors, stateful transforms, contrasts, "
-             "two-sided and multi-part) and two frames (clean; nulls in three cells) the full product of 3 outputs x 5 entry points x 3 "
-             "materializer/input combinations (pandas, narwhals on pandas, narwhals on a pyarrow table) x 2 null policies = 90 variants is "
-             "built by the real code and compared (values, shape, spec column names, pandas labels) with the pandas/model_matrix variant.",
+        text="For each of 49 formulas (plain, interactions in both factor orders, scalings, Python factors, stateful transforms, contrasts, "
+             "contrasts with non-default options, two-sided and multi-part) and three (thorough four) frames (clean; nulls in three cells; "
+             "shuffled index; categorical dtypes with a declared order) the full product of 3 outputs x 8 entry points (incl. re-use of a spec / "
+             "matrix with overriding options) x 5 materializer/input combinations (pandas, narwhals on pandas, narwhals on a pyarrow table, "
+             "plain dict, recarray) x 2 null policies is built by the real code and compared (values, shape, container type, spec column names, "
+             "pandas labels) with the pandas/model_matrix variant; every proper subset spec of 6 parent formulas is pushed through 6 spec-"
+             "accepting entry points x 3 x 3 outputs and compared with the parent's own columns.",
         design_ref="DESIGN.md section 3 C05",
         note="Pure differential: no reference values. polars is not installed; bool columns excluded (property silent on their kind); "
              "index labels are not compared.",
@@ -86,11 +96,12 @@ CHECKS += [
 CHECKS += [
     dict(
         id="C04",
-        text="29 formulas covering every stateful and stateless built-in transform (center, scale, standardize, poly, bs, cr/cs/cc with and "
+        text="57 formulas covering every stateful and stateless built-in transform (center, scale, standardize, poly, bs, cr/cs/cc with and "
              "without constraints, C() with several contrasts, hashed, Python factors, interactions, nested transforms) are fitted on "
              "sub-multisets of a 5-row pool; the recorded spec is applied to EVERY row selection of length <= 2 (thorough 3) inside the "
              "training domain and to EVERY history of <= 2 (3) events over {apply(selection), apply via model_matrix, pickle round trip, "
-             "update() copy}.  Oracle: differential row-locality out(pool[sel]) == out(pool)[sel], unchanged names, training matrix "
+             "update() copy}; also scaled terms, repeated stateful calls, explicit spline bounds, back-quoted names whose aliases collide, "
+             "follow-up frames keeping index labels or arriving with a categorical dtype.  Oracle: differential row-locality out(pool[sel]) == out(pool)[sel], unchanged names, training matrix "
              "reproduced, and the canonical digest of the spec state identical in every reachable state (one state per fit).",
         design_ref="DESIGN.md section 3 C04",
         note="Differential oracle (no hand-written values; the numeric contracts are C12/C13). Follow-up rows are drawn from the training "
@@ -108,7 +119,9 @@ CHECKS += [
              "event the inputs and formulas must have their initial digests, the result must equal the same call in a fresh world, every "
              "spec obtained so far must keep its state digest and finally behave like its pickled snapshot.  The one seed-dependent input "
              "(iteration order of the pooled factor set) is owned through a harness-side seam and ALL permutations are enumerated; "
-             "fresh interpreters under several PYTHONHASHSEED values cross-check the seam.",
+             "a hash-order seam replaces __hash__ of Factor / ScopedFactor / ScopedTerm by harness-chosen ranks (every iteration order of every "
+             "set of such objects); every history of 2 (3) builds / foreign parser configurations is also run in its own pristine interpreter "
+             "(module-level state); fresh interpreters under several PYTHONHASHSEED values cross-check the seams.",
         design_ref="DESIGN.md section 3 C18",
         note="2^32 hash seeds cannot be enumerated; the claim is that the seed reaches results only through the enumerated factor order "
              "(validated by separate-process runs). Bit-identity is decided on canonical digests (mc/canon.py).",
